@@ -139,6 +139,7 @@ KEYED = {  # (message type, repeated field) -> key function
     ("ModelProto", "opset_import"): lambda v: "domain:" + v.domain,
     ("FunctionProto", "opset_import"): lambda v: "domain:" + v.domain,
     ("ModelProto", "functions"): lambda v: f"{v.domain}::{v.name}::{v.overload}",
+    ("FunctionProto", "value_info"): lambda v: v.name,
     ("NodeProto", "attribute"): lambda v: v.name,
     ("FunctionProto", "attribute_proto"): lambda v: v.name,
     ("TensorProto", "external_data"): lambda v: v.key,
@@ -254,10 +255,24 @@ def py_includes(a, b):
         bd.setdefault(k, v)
     for k, x in a[1]:
         if k not in bd:
-            out.append((k, "missing"))
+            chain = [k]
+            while x[0] == "node" and len(x[1]) == 1:      # name what exactly is missing when the lost subtree has a single populated field
+                chain.append(x[1][0][0])
+                x = x[1][0][1]
+            out.append(tuple(chain) + ("missing",))
         else:
             out += [(k,) + d for d in py_includes(x, bd[k])]
     return out
+
+
+def py_wk(t):
+    """Python twin of Serde/Tree.v `wkb`."""
+    if t[0] in ("int", "bytes"):
+        return True
+    if t[0] == "seq":
+        return all(py_wk(x) for x in t[1])
+    ks = [k for k, _ in t[1]]
+    return len(set(ks)) == len(ks) and all(py_wk(x) for _, x in t[1])
 
 
 # ----------------------------------------------------------------------------- models
@@ -493,3 +508,229 @@ def gen_plain(rng, onnx, idx, opset=18):
             "fn_used": bool(functions), "opset": opset, "elem_types": [1], "external": False,
             "initializers": [{"name": a, "over_1000_elements": b, "also_graph_input": c} for a, b, c in flags]}
     return m, info
+
+
+# ----------------------------------------------------------------------------- every field of the schema, each set to a recognisable value
+
+def _mark(msg, path, meta=True, doc=True):
+    """doc_string / metadata_props of a carrier, recognisable by its path."""
+    if doc and hasattr(msg, "doc_string"):
+        msg.doc_string = f"doc@{path}"
+    if meta and hasattr(msg, "metadata_props"):
+        msg.metadata_props.add(key=f"mk@{path}", value=f"mv@{path}")
+        msg.metadata_props.add(key="common_key", value=f"v@{path}")
+
+
+def _vi(onnx, name, elem, shape, path, denot=False):
+    from onnx import helper
+    vi = helper.make_tensor_value_info(name, elem, shape)
+    _mark(vi, path)
+    if denot:
+        vi.type.denotation = "TENSOR"
+        for i, d in enumerate(vi.type.tensor_type.shape.dim):
+            d.denotation = ["DATA_BATCH", "DATA_CHANNEL", "DATA_FEATURE"][i % 3]
+    return vi
+
+
+def _sparse(onnx, name, path_tag):
+    from onnx import helper, TensorProto
+    vals = helper.make_tensor(name, TensorProto.FLOAT, [2], [1.5, -0.0])
+    idx = helper.make_tensor(name + "_idx", TensorProto.INT64, [2], [1, 3])
+    return helper.make_sparse_tensor(vals, idx, [5])
+
+
+def _subgraph(rng, onnx, tag, outer_value):
+    """A branch body: two nodes, an initializer, value_info of the intermediate value, doc and metadata everywhere."""
+    from onnx import TensorProto, helper
+    w = make_tensor(rng, onnx, f"{tag}_w", "FLOAT", [2, 3], doc=f"doc@{tag}/initializer/{tag}_w")
+    w.ClearField("raw_data")
+    import zlib
+    off = zlib.crc32(tag.encode()) % 997      # distinct payloads per body (identical initializers would be merged by deduplication)
+    w.float_data.extend([0.5 + off, -1.5, 2.5, 3.5 + off, -4.5, 5.5])
+    n1 = helper.make_node("Add", [outer_value, f"{tag}_w"], [f"{tag}_mid"], name=f"{tag}_add")
+    n2 = helper.make_node("Tanh", [f"{tag}_mid"], [f"{tag}_out"], name=f"{tag}_tanh")
+    for n in (n1, n2):
+        _mark(n, f"{tag}/node/{n.name}")
+    g = helper.make_graph([n1, n2], f"{tag}_graph", [], [_vi(onnx, f"{tag}_out", TensorProto.FLOAT, [2, 3], f"{tag}/output")],
+                          initializer=[w], value_info=[_vi(onnx, f"{tag}_mid", TensorProto.FLOAT, [2, 3], f"{tag}/value_info/{tag}_mid", denot=True)])
+    _mark(g, f"{tag}/graph")
+    return g
+
+
+def gen_full(rng, onnx, idx, sparse=False, training=False, devices=True, sparse_attr=False, checksum=False, map_type=False, opaque=False, opset=18):
+    """A valid model in which every field of the ONNX schema that a model can carry is populated with a value that names its place.
+    `sparse` / `training`: also graph.sparse_initializer / model.training_info (kept apart: onnx_ir drops both, findings of their own)."""
+    from onnx import AttributeProto, TensorProto, helper
+    nodes, inits = [], []
+    x = _vi(onnx, "x", TensorProto.FLOAT, [2, 3], "graph/input/x", denot=True)
+    xn = _vi(onnx, "xn", TensorProto.FLOAT, ["N", 3], "graph/input/xn", denot=True)     # symbolic dimension; consumed by the unknown-domain node only
+    c = _vi(onnx, "c", TensorProto.BOOL, [], "graph/input/c")
+    # typed inputs of the non-tensor kinds, consumed by the unknown-domain node only
+    seq_in = helper.make_value_info("seq_in", helper.make_sequence_type_proto(helper.make_tensor_type_proto(TensorProto.FLOAT, [2])))
+    opt_in = helper.make_value_info("opt_in", helper.make_optional_type_proto(helper.make_tensor_type_proto(TensorProto.INT64, None)))
+    sp_in = helper.make_value_info("sp_in", helper.make_sparse_tensor_type_proto(TensorProto.FLOAT, [4, "M"]))
+    for v in (seq_in, opt_in, sp_in):
+        _mark(v, f"graph/input/{v.name}")
+    inputs = [x, c, seq_in, opt_in, sp_in, xn]
+    hold_extra = ["xn"]
+    if map_type:      # onnx_ir refuses map types outright (NotImplementedError): kept apart
+        mp = helper.make_value_info("map_in", helper.make_map_type_proto(TensorProto.INT64, helper.make_tensor_type_proto(TensorProto.FLOAT, [2])))
+        _mark(mp, "graph/input/map_in")
+        inputs.append(mp)
+        hold_extra.append("map_in")
+    if opaque:
+        op = onnx.ValueInfoProto()
+        op.name = "opaque_in"
+        op.type.opaque_type.domain, op.type.opaque_type.name = "domain@opaque", "name@opaque"
+        _mark(op, "graph/input/opaque_in")
+        inputs.append(op)
+        hold_extra.append("opaque_in")
+    n_if = helper.make_node("If", ["c"], ["y_if"], name="n_if", then_branch=_subgraph(rng, onnx, "then", "x"),
+                            else_branch=_subgraph(rng, onnx, "else", "x"))
+    _mark(n_if, "graph/node/n_if")
+    for a in n_if.attribute:
+        a.doc_string = f"doc@graph/node/n_if/attribute/{a.name}"
+    nodes.append(n_if)
+    # every attribute kind on a node of an unknown domain
+    t_attr = make_tensor(rng, onnx, "attr_t", "BFLOAT16", [3], doc="doc@attr_t")
+    ts_attr = [make_tensor(rng, onnx, "attr_ts0", "INT4", [5]), make_tensor(rng, onnx, "attr_ts1", "STRING", [2])]
+    tp = helper.make_tensor_type_proto(TensorProto.FLOAT16, [1, "K"])
+    tp.denotation = "IMAGE"
+    hold = helper.make_node("Hold", ["seq_in", "opt_in", "sp_in"] + hold_extra, ["held"], name="n_hold", domain=DOM)
+    for k, v in (("a_f", 0.1), ("a_i", -(2 ** 40)), ("a_s", "bytes \u00e9\u4e2d".encode()), ("a_t", t_attr), ("a_floats", [1.5, float("inf"), -0.0]),
+                 ("a_ints", [2 ** 62, -1, 0]), ("a_strings", [b"a", b"", "\u00e9\u4e2d".encode()]), ("a_tensors", ts_attr), ("a_tp", tp),
+                 ("a_g", _subgraph(rng, onnx, "attrg", "x")), ("a_graphs", [_subgraph(rng, onnx, "attrg0", "x"), _subgraph(rng, onnx, "attrg1", "x")]),
+                 ("a_tps", [helper.make_tensor_type_proto(TensorProto.INT8, []),
+                            helper.make_sequence_type_proto(helper.make_tensor_type_proto(TensorProto.DOUBLE, [1]))])):
+        a = helper.make_attribute(k, v)
+        a.doc_string = f"doc@graph/node/n_hold/attribute/{k}"
+        hold.attribute.append(a)
+    if sparse_attr:   # onnx_ir refuses these outright (NotImplementedError): kept apart
+        sa = hold.attribute.add()
+        sa.name, sa.type = "a_sparse", AttributeProto.SPARSE_TENSOR
+        sa.sparse_tensor.CopyFrom(_sparse(onnx, "attr_sp", "a_sparse"))
+        sa.doc_string = "doc@graph/node/n_hold/attribute/a_sparse"
+        sas = hold.attribute.add()
+        sas.name, sas.type = "a_sparses", AttributeProto.SPARSE_TENSORS
+        sas.sparse_tensors.append(_sparse(onnx, "attr_sps0", "a_sparses"))
+    ea = hold.attribute.add()
+    ea.name, ea.type = "a_empty_ints", AttributeProto.INTS
+    _mark(hold, "graph/node/n_hold")
+    # a model-local function with attributes (required + defaulted), a reference attribute inside, value_info, overload
+    f_nodes = [helper.make_node("LeakyRelu", ["a"], ["fa"], name="fn_leaky"), helper.make_node("Mul", ["fa", "fa"], ["b"], name="fn_mul")]
+    ra = f_nodes[0].attribute.add()
+    ra.name, ra.type, ra.ref_attr_name = "alpha", AttributeProto.FLOAT, "slope"
+    ra.doc_string = "doc@function/node/fn_leaky/attribute/alpha"
+    for n in f_nodes:
+        _mark(n, f"function/node/{n.name}")
+    fn = helper.make_function(DOM + ".fn", "Scaled", ["a"], ["b"], f_nodes, opset_imports=[helper.make_opsetid("", opset)], attributes=["slope"],
+                              attribute_protos=[helper.make_attribute("unused_default", 7)], doc_string="doc@function", overload="ov1",
+                              value_info=[_vi(onnx, "fa", TensorProto.FLOAT, [2, 3], "function/value_info/fa")])
+    _mark(fn, "function", doc=False)
+    call = helper.make_node("Scaled", ["y_if"], ["y_fn"], name="n_call", domain=DOM + ".fn", overload="ov1", slope=0.25)
+    _mark(call, "graph/node/n_call")
+    if devices:
+        dc = call.device_configurations.add()
+        dc.configuration_id = "cfg0"
+        dc.pipeline_stage = 2
+        ss = dc.sharding_spec.add()
+        ss.tensor_name = "y_if"
+        ss.device.extend([0, 1])
+        e = ss.index_to_device_group_map.add()
+        e.key = 0
+        e.value.extend([0, 1])
+        sd = ss.sharded_dim.add()
+        sd.axis = 1
+        s1 = sd.simple_sharding.add()
+        s1.dim_value, s1.num_shards = 3, 1
+        s2 = sd.simple_sharding.add()
+        s2.dim_param, s2.num_shards = "N", 2
+    nodes += [call, hold]
+    to_y = helper.make_node("Neg", ["y_fn"], ["y"], name="n_to_y")
+    _mark(to_y, "graph/node/n_to_y")
+    nodes.append(to_y)
+    # initializers: one per element type, external reference, all consumed by a second unknown-domain node
+    names = []
+    for e in list(ELEM) + ["STRING"]:
+        shape = rng.choice([[], [0], [1], [3], [2, 2], [5], [7]])
+        t = make_tensor(rng, onnx, f"e_{e.lower()}", e, shape, encoding=rng.choice(["raw", "typed"]), doc=f"doc@graph/initializer/e_{e.lower()}")
+        inits.append(t)
+        names.append(t.name)
+    ext = onnx.TensorProto()
+    ext.name, ext.data_type, ext.data_location = "e_external", TensorProto.FLOAT, TensorProto.EXTERNAL
+    ext.dims.extend([4, 4])
+    for k, v in (("location", "weights.bin"), ("offset", "64"), ("length", "64")) + ((("checksum", "0f" * 20),) if checksum else ()):
+        ext.external_data.add(key=k, value=v)
+    ext.doc_string = "doc@graph/initializer/e_external"
+    inits.append(ext)
+    names.append("e_external")
+    scale = helper.make_tensor("y_if_scale", TensorProto.FLOAT, [], [0.5])
+    zp = helper.make_tensor("y_if_zero_point", TensorProto.UINT8, [], [3])
+    inits += [scale, zp]
+    names += ["y_if_scale", "y_if_zero_point"]
+    hold2 = helper.make_node("Hold", names, ["held2"], name="n_hold2", domain=DOM)
+    _mark(hold2, "graph/node/n_hold2")
+    nodes.append(hold2)
+    outputs = [_vi(onnx, "y", TensorProto.FLOAT, [2, 3], "graph/output/y"), _vi(onnx, "held", TensorProto.FLOAT, [], "graph/output/held"),
+               _vi(onnx, "held2", TensorProto.FLOAT, [], "graph/output/held2")]
+    vinfo = [_vi(onnx, "y_if", TensorProto.FLOAT, [2, 3], "graph/value_info/y_if", denot=True),
+             _vi(onnx, "y_fn", TensorProto.FLOAT, [2, 3], "graph/value_info/y_fn")]
+    g = helper.make_graph(nodes, "graph_full", inputs, outputs, initializer=inits, value_info=vinfo)
+    _mark(g, "graph")
+    qa = g.quantization_annotation.add()
+    qa.tensor_name = "y_if"
+    qa.quant_parameter_tensor_names.add(key="SCALE_TENSOR", value="y_if_scale")
+    qa.quant_parameter_tensor_names.add(key="ZERO_POINT_TENSOR", value="y_if_zero_point")
+    if sparse:
+        g.sparse_initializer.append(_sparse(onnx, "sp_init", "graph/sparse_initializer"))
+        hold2.input.append("sp_init")
+    opsets = [helper.make_opsetid("", opset), helper.make_opsetid(DOM, 1), helper.make_opsetid(DOM + ".fn", 1)]
+    m = helper.make_model(g, opset_imports=opsets, ir_version=rng.choice([11, 12, 13]), functions=[fn])
+    m.producer_name, m.producer_version, m.domain, m.model_version = "producer@model", "version@model", "domain@model", 2 ** 40 + idx
+    _mark(m, "model")
+    if devices:
+        cfg = m.configuration.add()
+        cfg.name, cfg.num_devices = "cfg0", 2
+        cfg.device.extend(["dev0", "dev1"])
+    if training:
+        ti = m.training_info.add()
+        ti.algorithm.name = "algorithm@training_info"
+        ti.algorithm.node.append(helper.make_node("Neg", ["y_if_scale"], ["new_scale"], name="train_neg"))
+        ti.algorithm.output.append(helper.make_tensor_value_info("new_scale", TensorProto.FLOAT, []))
+        ti.update_binding.add(key="y_if_scale", value="new_scale")
+        ti.initialization.name = "initialization@training_info"
+        ti.initialization.node.append(helper.make_node("Identity", ["y_if_scale"], ["init_scale"], name="train_init"))
+        ti.initialization.output.append(helper.make_tensor_value_info("init_scale", TensorProto.FLOAT, []))
+        ti.initialization_binding.add(key="y_if_scale", value="init_scale")
+    variant = [k for k, v in (("sparse", sparse), ("training", training), ("sparse_attr", sparse_attr), ("checksum", checksum), ("map_type", map_type),
+                              ("opaque", opaque)) if v]
+    info = {"kind": "full-variant" if variant else "full", "variant": variant, "idx": idx, "metadata": True, "tensor_metadata": False, "vi_complete": True, "functions": 1, "fn_used": True, "opset": opset,
+            "elem_types": sorted({t.data_type for t in inits}), "external": True, "sparse": sparse, "training": training, "devices": devices, "sparse_attr": sparse_attr}
+    return m, info
+
+
+def schema_fields(onnx):
+    """Every (message, field) of the ONNX schema reachable from ModelProto."""
+    seen, out = set(), []
+
+    def walk(d):
+        if d.name in seen:
+            return
+        seen.add(d.name)
+        for f in d.fields:
+            out.append((d.name, f.name))
+            if f.message_type:
+                walk(f.message_type)
+    walk(onnx.ModelProto.DESCRIPTOR)
+    return out
+
+
+def populated_fields(msg, acc):
+    """(message, field) pairs that carry something in `msg` (recursively)."""
+    from google.protobuf.descriptor import FieldDescriptor as FD
+    for fd, val in msg.ListFields():
+        acc.add((msg.DESCRIPTOR.name, fd.name))
+        if fd.type == FD.TYPE_MESSAGE:
+            for v in (val if _rep(fd) else [val]):
+                populated_fields(v, acc)
+    return acc
